@@ -17,8 +17,10 @@ RULE = ('seeded generator: pairs of spectra with identical / nested / partially 
         '(polynomial operands), fill 0 / non-zero, units nm/um/m/angstrom (same and mixed), scalar and vector operands, '
         'Blackbody operands.  distinct = distinct (grids hash, operator, options, units) descriptors; non-trivial = both '
         'operands with >= 2 samples.')
-ASSUMPTIONS = ['grid points within 1e-9 (relative) of an operand end point may take either the interpolated or the fill value',
-               'division by an interpolated zero (inf/nan) is compared as produced']
+ASSUMPTIONS = ['grid points within 1e-9 (relative) of an operand end point, but farther than 2e-15 from it, may take either the interpolated or '
+               'the fill value (closer than 2e-15 they ARE the end sample)',
+               'a divisor that interpolates to zero only to rounding is not evidence; a zero fill value outside the divisor range is an exact zero '
+               '(a / 0 = inf, 0 / 0 = nan are required there)']
 PLAN = {'quick': {'gen': 8}, 'thorough': {'gen': 16, 'tests': 1, 'docs': 1}}
 REQUIRED_BUCKETS = ['range:identical', 'range:nested', 'range:overlap', 'range:disjoint', 'grid:uniform', 'grid:nonuniform',
                     'op:add', 'op:subtract', 'op:multiply', 'op:divide', 'op:power', 'sampling:min', 'sampling:left',
